@@ -40,13 +40,21 @@ func scenC17(k *K) {
 		c.RandomWrite(0) // non-empty start
 	}
 	startEffects := len(T.Disk.Effects)
-	k.InstallHooks(func(pt string, owner interface{}) bool {
-		switch pt {
-		case "store.after-append", "store.after-head-persisted", "store.after-index":
-			return OwnerStoreID(owner) == addr
-		}
-		return false
-	})
+	// two ways of interleaving the writers: parked at the three write-path hooks and released one
+	// at a time (coarse, complete at that granularity), or free-running and interleaved at the
+	// inserted statement-level yield points only (fine, e.g. inside the view update)
+	free := k.C.Chance(1, 3)
+	if !free {
+		k.InstallHooks(func(pt string, owner interface{}) bool {
+			switch pt {
+			case "store.after-append", "store.after-head-persisted", "store.after-index":
+				return OwnerStoreID(owner) == addr
+			}
+			return false
+		})
+	} else {
+		k.W.Stat("free-running-writers")
+	}
 	nw := k.C.Range(2, 8)
 	if k.C.Chance(1, 3) {
 		nw = 2
@@ -267,7 +275,7 @@ func scenC17(k *K) {
 	k.Notes["reads"] = len(reads)
 	k.Notes["max_parked"] = maxParked
 	k.Notes["crash_prefixes"] = prefixes
-	k.Notes["nontrivial"] = maxParked >= 2
+	k.Notes["nontrivial"] = maxParked >= 2 || (free && nw >= 2)
 	c.CloseAll()
 }
 
